@@ -99,4 +99,86 @@ theorem neq_zero_iff (sq : K → K) (a : K) : @neq K (fieldNum K sq) a 0 = true 
   simp only [neq, Bool.and_eq_true, decide_eq_true_eq]
   exact ⟨fun ⟨h1, h2⟩ => le_antisymm h1 h2, fun h => by subst h; exact ⟨le_refl _, le_refl _⟩⟩
 
+/-! ## Triangle Voronoi regions in Gram coordinates
+`A = |ab|²`, `B = ab·ac`, `C = |ac|²`, `p = a + s·ab + t·ac`; `P1 = ab·ap = sA + tB`, `P2 = ac·ap = sB + tC`.
+The six tests of `point_triangle.rs` (vertex a, b, c; edge ab, ac, bc) are written in these coordinates. -/
+
+/-- core case: `t < 0` and `ab·ap < 0` contradict the failure of the tests for vertex `a`, edge `ac`, vertex `c`. -/
+theorem tri_L (A B C s t : K) (hA : 0 < A) (hD : 0 < A * C - B * B) (ht : t < 0)
+    (hP1 : s * A + t * B < 0)
+    (ha : ¬(s * A + t * B ≤ 0 ∧ s * B + t * C ≤ 0))
+    (hac : ¬(s < 0 ∧ 0 ≤ s * B + t * C ∧ s * B + t * C - C ≤ 0))
+    (hc : ¬(0 ≤ s * B + t * C - C ∧ s * A + t * B - B ≤ s * B + t * C - C)) : False := by
+  have hP2 : 0 < s * B + t * C := by
+    by_contra h; exact ha ⟨hP1.le, not_lt.1 h⟩
+  rcases le_or_gt (s * B + t * C) C with h | h
+  · have hs : 0 ≤ s := by
+      by_contra h'; exact hac ⟨not_le.1 h', hP2.le, by linarith⟩
+    rcases le_total 0 B with hB | hB
+    · nlinarith [mul_pos hA hP2, mul_nonneg hB (neg_nonneg.2 hP1.le), mul_pos (neg_pos.2 ht) hD]
+    · nlinarith [mul_nonneg hs hA.le, mul_nonneg (neg_nonneg.2 ht.le) (neg_nonneg.2 hB)]
+  · have h2 : s * B + t * C - C < s * A + t * B - B := by
+      by_contra h'; exact hc ⟨by linarith, not_lt.1 h'⟩
+    have hB : B < 0 := by linarith
+    have hPB : 0 < s * A + t * B - B := by linarith
+    nlinarith [mul_pos hA (sub_pos.2 h), mul_pos (neg_pos.2 hB) hPB, mul_pos (neg_pos.2 ht) hD]
+
+/-- if all six Voronoi tests fail then the `ac`-coordinate `t` is non-negative -/
+theorem tri_t_nonneg (A B C s t : K) (hA : 0 < A) (hD : 0 < A * C - B * B)
+    (ha : ¬(s * A + t * B ≤ 0 ∧ s * B + t * C ≤ 0))
+    (hb : ¬(0 ≤ s * A + t * B - A ∧ s * B + t * C - B ≤ s * A + t * B - A))
+    (hc : ¬(0 ≤ s * B + t * C - C ∧ s * A + t * B - B ≤ s * B + t * C - C))
+    (hab : ¬(t < 0 ∧ 0 ≤ s * A + t * B ∧ s * A + t * B - A ≤ 0))
+    (hac : ¬(s < 0 ∧ 0 ≤ s * B + t * C ∧ s * B + t * C - C ≤ 0))
+    (hbc : ¬(1 - s - t < 0 ∧ 0 ≤ (s * B + t * C - B) - (s * A + t * B - A) ∧ 0 ≤ (s * A + t * B - B) - (s * B + t * C - C))) :
+    0 ≤ t := by
+  by_contra ht
+  push Not at ht
+  have h12 : s * A + t * B < 0 ∨ A < s * A + t * B := by
+    by_contra h; push Not at h; exact hab ⟨ht, h.1, by linarith [h.2]⟩
+  rcases h12 with h1 | h1
+  · exact tri_L A B C s t hA hD ht h1 ha hac hc
+  · have hD' : 0 < A * (A - 2 * B + C) - (A - B) * (A - B) := by
+      have : A * (A - 2 * B + C) - (A - B) * (A - B) = A * C - B * B := by ring
+      rw [this]; exact hD
+    refine tri_L A (A - B) (A - 2 * B + C) (1 - s - t) t hA hD' ht (by linarith) ?_ ?_ ?_
+    · exact fun ⟨h1', h2'⟩ => hb ⟨by linarith, by linarith⟩
+    · exact fun ⟨h1', h2', h3'⟩ => hbc ⟨h1', by linarith, by linarith⟩
+    · exact fun ⟨h1', h2'⟩ => hc ⟨by linarith, by linarith⟩
+
+/-- **face region**: if none of the six Voronoi tests fires, the point has barycentric coordinates in the triangle. -/
+theorem tri_face_inside (A B C s t : K) (hA : 0 < A) (hC : 0 < C) (hD : 0 < A * C - B * B)
+    (ha : ¬(s * A + t * B ≤ 0 ∧ s * B + t * C ≤ 0))
+    (hb : ¬(0 ≤ s * A + t * B - A ∧ s * B + t * C - B ≤ s * A + t * B - A))
+    (hc : ¬(0 ≤ s * B + t * C - C ∧ s * A + t * B - B ≤ s * B + t * C - C))
+    (hab : ¬(t < 0 ∧ 0 ≤ s * A + t * B ∧ s * A + t * B - A ≤ 0))
+    (hac : ¬(s < 0 ∧ 0 ≤ s * B + t * C ∧ s * B + t * C - C ≤ 0))
+    (hbc : ¬(1 - s - t < 0 ∧ 0 ≤ (s * B + t * C - B) - (s * A + t * B - A) ∧ 0 ≤ (s * A + t * B - B) - (s * B + t * C - C))) :
+    0 ≤ s ∧ 0 ≤ t ∧ s + t ≤ 1 := by
+  have h1 := tri_t_nonneg A B C s t hA hD ha hb hc hab hac hbc
+  have hD2 : 0 < C * A - B * B := by linarith
+  have h2 : 0 ≤ s := by
+    refine tri_t_nonneg C B A t s hC hD2 ?_ ?_ ?_ ?_ ?_ ?_
+    · exact fun ⟨x, y⟩ => ha ⟨by linarith, by linarith⟩
+    · exact fun ⟨x, y⟩ => hc ⟨by linarith, by linarith⟩
+    · exact fun ⟨x, y⟩ => hb ⟨by linarith, by linarith⟩
+    · exact fun ⟨x, y, z⟩ => hac ⟨x, by linarith, by linarith⟩
+    · exact fun ⟨x, y, z⟩ => hab ⟨x, by linarith, by linarith⟩
+    · exact fun ⟨x, y, z⟩ => hbc ⟨by linarith, by linarith, by linarith⟩
+  have hC' : 0 < A - 2 * B + C := by
+    by_contra h; push Not at h
+    nlinarith [mul_self_nonneg (A - B), mul_nonneg hA.le (neg_nonneg.2 h)]
+  have hD3 : 0 < (A - 2 * B + C) * A - (A - B) * (A - B) := by
+    have : (A - 2 * B + C) * A - (A - B) * (A - B) = A * C - B * B := by ring
+    rw [this]; exact hD
+  have h3 : 0 ≤ 1 - s - t := by
+    refine tri_t_nonneg (A - 2 * B + C) (A - B) A t (1 - s - t) hC' hD3 ?_ ?_ ?_ ?_ ?_ ?_
+    · exact fun ⟨x, y⟩ => hb ⟨by linarith, by linarith⟩
+    · exact fun ⟨x, y⟩ => hc ⟨by linarith, by linarith⟩
+    · exact fun ⟨x, y⟩ => ha ⟨by linarith, by linarith⟩
+    · exact fun ⟨x, y, z⟩ => hbc ⟨x, by linarith, by linarith⟩
+    · exact fun ⟨x, y, z⟩ => hab ⟨x, by linarith, by linarith⟩
+    · exact fun ⟨x, y, z⟩ => hac ⟨by linarith, by linarith, by linarith⟩
+  exact ⟨h2, h1, by linarith⟩
+
 end C05
